@@ -261,6 +261,8 @@ pub fn catalogue() -> Vec<ARecord> {
         rec("foobar", 1, ARData::Typed { code: 9, fields: vec![Val::Name(n("foo.bar"))] }),
         // the CHAOS-class twin of the first record (same owner, same rdata)
         rec("foobar", 3, a(0x0a000001)),
+        // a record of class NONE (a question of class ANY selects it like any other)
+        rec("bar.foo", 254, a(0x0a000009)),
         // a CNAME owned by the target of the first SRV record
         rec("a.b.local", 1, ARData::Typed { code: 5, fields: vec![Val::Name(n("ba.local"))] }),
     ]
@@ -268,7 +270,7 @@ pub fn catalogue() -> Vec<ARecord> {
 
 const QNAMES: [&str; 12] = ["foobar", "bar.foo", "foo.bar", "foo", "bar", "_my.local", "_mysrv.local", "local", "b.local", "ba.local", "a.b.local", "my.local"];
 const QTYPES: [u16; 11] = [1, 33, 16, 255, 253, 12, 252, 254, 8, 9, 5];
-const QCLASSES: [u16; 3] = [1, 3, 255];
+const QCLASSES: [u16; 4] = [1, 3, 255, 254];
 
 fn all_questions() -> Vec<AQuestion> {
     let mut v = Vec::new();
@@ -343,7 +345,7 @@ fn coll_rdata() -> BoxedStrategy<ARData> {
 }
 
 pub fn coll_record() -> BoxedStrategy<ARecord> {
-    (coll_name(), select(vec![1u16, 1, 1, 3]), coll_rdata(), select(vec![0u32, 1, 120, 3600]), any::<bool>())
+    (coll_name(), select(vec![1u16, 1, 1, 1, 3, 3, 2, 4, 254]), coll_rdata(), select(vec![0u32, 1, 120, 3600]), any::<bool>())
         .prop_map(|(name, class, rdata, ttl, cache_flush)| ARecord { name, class, cache_flush, ttl, rdata })
         .boxed()
 }
@@ -360,7 +362,7 @@ pub fn op_strategy() -> BoxedStrategy<Op> {
 
 fn hist_strategy(_t: Tier) -> BoxedStrategy<Hist> {
     let qtype = prop_oneof![4 => select(vec![1u16, 28, 33, 16, 12, 7, 15, 10, 255, 253, 254, 252, 251]), 1 => select(gen::record_codes())];
-    let q = (coll_name(), qtype, select(vec![1u16, 3, 255]), any::<bool>())
+    let q = (coll_name(), qtype, select(vec![1u16, 1, 3, 255, 255, 2, 4, 254]), any::<bool>())
         .prop_map(|(name, qtype, qclass, unicast)| AQuestion { name, qtype, qclass, unicast });
     (vec(op_strategy(), 0..12), vec((q, any::<u16>()), 0..=2), any::<u16>())
         .prop_map(|(mut ops, questions, id)| {
